@@ -5,6 +5,10 @@ use serde_json::Value;
 use crate::chain::{Fault, SinkAct};
 use crate::contracts::IbcSudo;
 
+fn is_zero(x: &u64) -> bool {
+    *x == 0
+}
+
 #[derive(Clone, Debug, Serialize, Deserialize, PartialEq)]
 pub enum Step {
     /// one top-level transaction: `sender` executes `msg` on contract `target` (label)
@@ -26,7 +30,13 @@ pub enum Step {
         coins: Vec<(String, String)>,
     },
     /// advance the chain: height += dh, time += dt seconds
-    Block { dh: u64, dt: u64 },
+    Block {
+        dh: u64,
+        dt: u64,
+        /// extra nanoseconds (block times are not aligned to whole seconds on a real chain)
+        #[serde(default, skip_serializing_if = "is_zero")]
+        dn: u64,
+    },
     /// relayer / IBC-core event delivered to the ics20 contract
     Ibc {
         msg: IbcSudo,
